@@ -47,6 +47,7 @@ def families(tier):
         ("M-knotted", lambda: _knotted(enum2d.M(8 if q else 10)), 1),
         ("D-knotted", lambda: _knotted(enum2d.D(3 if q else 4)), 1),
         ("M-unknotted", lambda: _knotted(enum2d.M(5), False), 1),
+        ("M-exotic-letters", lambda: (enum2d.exotic(c) for c in enum2d.M(6, nmin=3)), 1),
     ]
 
 
